@@ -14,6 +14,7 @@ import (
 	"net/textproto"
 	"strconv"
 	"strings"
+	"time"
 )
 
 // ServerConnection represents the server part of this app. It waits for the client announcement
@@ -39,6 +40,12 @@ func NewServerConnection(c net.Conn, manager cert.TlsConfig, secure bool) (*Serv
 		connection.securityTech = SecurityUnderlying
 	} else {
 		connection.securityTech = SecurityNone
+	}
+
+	// A peer that stalls in the middle of the handshake must not occupy the server for ever
+	if HandshakeTimeout > 0 {
+		_ = c.SetDeadline(time.Now().Add(HandshakeTimeout))
+		defer func() { _ = c.SetDeadline(time.Time{}) }()
 	}
 
 	log.Debugf("[Server] SocketAce handshake...")
